@@ -9,6 +9,7 @@ import subprocess
 
 from . import common as C
 
+GENERIC_REPLAY = True   # scenarios are a deterministic function of (tier, seed); see check --replay
 LEVEL = {"C13": "other"}
 
 
